@@ -392,7 +392,7 @@ class Cluster:
                 first_base = base
         res["base_offset"] = first_base if first_base is not None else -1
         if t.timestamp_type == 1:
-            res["log_append_time"] = now_ms
+            res["log_append_time"] = res.get("dup_ts", now_ms)
         if applies_anyway:
             res["error"] = forced
             res["base_offset"] = -1
@@ -413,6 +413,7 @@ class Cluster:
                 for (bs, ls, bo, ts) in st["recent"]:
                     if bs == bt.base_sequence and ls == last_seq:
                         res["duplicate"] = True
+                        res["dup_ts"] = ts  # Kafka answers a duplicate from the retained BatchMetadata (original offset and timestamp)
                         return NONE, bo
                 in_seq = bt.base_sequence == st["last_seq"] + 1 or (bt.base_sequence == 0 and st["last_seq"] == INT32_MAX)
                 if not in_seq:
